@@ -211,6 +211,53 @@ def brute(pn, pedges, pel, hn, hadj, hel):
     return out
 
 
+def h_match_owner(e0: bool, e1: bool, e2: bool, e3: bool, e4: bool, e5: bool, psel: int, owner: int) -> bool:
+    """
+    the same question on a graph whose atoms are (also) held by another container: owner 0 = two of its atoms were adopted afterwards by another
+    Promolecule (their parent / idx now refer to that one); owner 1 = the graph is a Substructure view of a larger Structure.  Indices returned by
+    get_substr_indices are positions in the queried graph's own atom list; match() and get_substr_indices agree
+    pre: 0 <= psel <= 5 and 0 <= owner <= 1
+    pre: SPLIT < 0 or (owner == SPLIT // 3 and psel % 3 == SPLIT % 3)
+    post: _
+    """
+    from molli.chem import Promolecule, Structure, Substructure
+    bits = [e0, e1, e2, e3, e4, e5]
+    n = 4
+    if owner == 0:
+        host, hadj, _ = build(Connectivity, bits, n=n)
+        other = Promolecule([host.atoms[2], host.atoms[0]])
+    else:
+        big = Structure([Atom("O", label="x0"), Atom("O", label="x1")] + [Atom("C", label=f"a{i}") for i in range(n)])
+        hadj = {i: [] for i in range(n)}
+        for k, (i, j) in enumerate(PAIRS[:6]):
+            if bits[k]:
+                big.connect(i + 2, j + 2)
+                hadj[i].append(j)
+                hadj[j].append(i)
+        big.connect(0, 1)
+        host = Substructure(big, big.atoms[2:])
+    pn, pedges = PATTERNS[pick(psel, 6)]
+    pat = Connectivity([Atom(Element.C, label=f"p{i}") for i in range(pn)])
+    for i, j in pedges:
+        pat.connect(i, j)
+    want = brute(pn, pedges, [Element.C] * pn, n, hadj, [Element.C] * n)
+    with untraced():
+        got = [list(x) for x in host.get_substr_indices(pat)]
+        maps = list(host.match(pat))
+    if len(got) != len(want) or len(maps) != len(want):
+        return False
+    for g in got:
+        if g not in want:
+            return False
+    for w in want:
+        if g_count(got, w) != 1:
+            return False
+    for m in maps:
+        if [idx(host, m[a]) for a in pat.atoms] not in want:
+            return False
+    return True
+
+
 def h_match(e0: bool, e1: bool, e2: bool, e3: bool, e4: bool, e5: bool, e6: bool, e7: bool, e8: bool, e9: bool, psel: int, p0: int, p1: int, h0: int, h1: int, bt: int, cls_sel: int) -> bool:
     """
     get_substr_indices / match return exactly the induced embeddings (none invalid, none missed, none twice); elements of two pattern and two
@@ -331,6 +378,7 @@ def run(rep, tier):
         env4 = {"XH_N": "4", "XH_NSPLIT": str(ns), "XH_FULL": "1"}
         specs += [{"fn": fn, "timeout": T, "split": s, "env": env4} for fn in ("h_match", "h_adj") for s in range(ns)]
     specs += [{"fn": "h_node_match", "timeout": 600}, {"fn": "h_edge_match", "timeout": 600}]
+    specs += [{"fn": "h_match_owner", "timeout": 900, "env": {"XH_N": "4"}, "split": sp} for sp in range(6)]
     xh.run_obligations(rep, "harness.C15", specs)
 
 
